@@ -306,6 +306,14 @@ Definition shape_ok (cv : json) : bool :=
   | _ => false
   end.
 
+(* the recorded value compared as a keyed collection: anything but a list of
+   dicts is absent (34ca0d2) *)
+Definition la_items (lav : json) : json :=
+  match lav with
+  | JList l => if forallb is_jmap l then lav else JNull
+  | _ => JNull
+  end.
+
 Section Loops.
   (* the recursive call validate_match(target, actual, last_applied_value, compare_list_as_set) *)
   Variable rec : json -> json -> json -> bool -> outs.
@@ -338,7 +346,7 @@ Section Loops.
                     | Ret A =>
                         match read_la p with
                         | Ret lav =>
-                            match list_to_object lav fields with
+                            match list_to_object (la_items lav) fields with
                             | Ret L => rec T A L false
                             | c => outs_of_fail c
                             end
